@@ -180,9 +180,14 @@ def families(tier):
                        res={'VCPU': None})),
         ('mixed-2', M, F(fmem=[1], forb=[T1], res={'VCPU': None})),
     ]
+    fams += [
+        # every inventory carries usage, so a provider holds allocations of
+        # classes other than the one asked for
+        ('resources+usage', I, F(res={'VCPU': None}), True),
+        ('resources-2+usage', I, F(res={'VCPU': None, 'DISK_GB': 1}), True),
+    ]
     if tier == 'thorough':
         fams += [
-            ('resources+usage', I, F(res={'VCPU': None}), True),
             ('mixed+usage', M, F(in_tree=U(1), mem=[[1]], req=[[T1]],
                                  res={'VCPU': None}), True),
             ('required-1.18', T, F(req=[[T1]], version='1.18')),
